@@ -967,6 +967,12 @@ def normal_form_rules(R, lib, zs):
 
 
 SELFTEST = [
+    dict(id='second-fix-pass-over-the-active-transitions-dropped', file='src/ace_time/ExtendedZoneProcessor.h',
+         find='      fixTransitionTimes(begin, end);\n      if (ACE_TIME_EXTENDED_ZONE_PROCESSOR_DEBUG) { log(); }\n      generateStartUntilTimes(begin, end);',
+         replace='      if (ACE_TIME_EXTENDED_ZONE_PROCESSOR_DEBUG) { log(); }\n      generateStartUntilTimes(begin, end);', rule='R11'),
+    dict(id='thirteen-month-window-ends-in-january', file='tools/zonedb/zone_specifier.py',
+         find='        elif self.viewing_months == 13:\n            start_ym = YearMonthTuple(year, 1)\n            until_ym = YearMonthTuple(year + 1, 2)',
+         replace='        elif self.viewing_months == 13:\n            start_ym = YearMonthTuple(year, 1)\n            until_ym = YearMonthTuple(year + 1, 1)', rule='R10'),
     dict(id='cpp-era-compare-drops-day', file='src/ace_time/ExtendedZoneProcessor.h', find='      if (era.untilDay() > 1) return 1;\n', replace='', rule='R1', construct='compareEraToYearMonth'),
     dict(id='python-era-compare-month-sign', file='tools/zonedb/zone_specifier.py',
          find='        if era.untilMonth < month:\n            return -1', replace='        if era.untilMonth <= month:\n            return -1', rule='R1', construct='compareEraToYearMonth'),
